@@ -36,6 +36,11 @@ func (x *c03Env) ruleF() {
 		c.undecided("C03.f", "vaxis.parseMouseEvent", 0, "parseMouseEvent not found")
 		return
 	}
+	defer x.ruleFConsts()
+	// by effect (c03_mouse_eval.go); the statement-shape formulation below decides only when the function cannot be evaluated
+	if x.mouseByEffects(fi) {
+		return
+	}
 	name := fi.Name
 	info := x.info
 	g := c.P.Graph(fi)
@@ -456,8 +461,11 @@ func (x *c03Env) ruleF() {
 	if !okMarker {
 		c.undecided("C03.f", name+"/accepted reports carry exactly the '<' marker", fi.Decl.Pos(), "no `return mouse, true` found")
 	}
+}
 
-	// MouseButton constants = xterm button numbers
+// ruleFConsts: MouseButton constants = xterm button numbers
+func (x *c03Env) ruleFConsts() {
+	c := x.c
 	wantBtn := []struct {
 		n string
 		v int64
